@@ -9,7 +9,7 @@ props=$(python3 -c "import json;print(' '.join(c['property_id'] for c in json.lo
 ids=${*:-$(ls /verif/seeded | grep -v RESULTS)}
 # snapshot of the checker binary and of /repo's HEAD: the run is not disturbed when either changes meanwhile
 vchk=/tmp/seedrun-verifchk-$$
-cp /verif/bin/verifchk $vchk
+cp ${VERIFCHK_BIN:-/verif/bin/verifchk} $vchk
 base=/tmp/seedrun-base-$$
 rm -rf $base; mkdir -p $base
 git -C /repo archive HEAD | tar -x -C $base --exclude='testdata' --exclude='docs' --exclude='playground' 2>/dev/null
